@@ -176,47 +176,85 @@ fn supervise(property: &'static str) {
         Err(_) => return,
     };
     let args: Vec<String> = std::env::args().skip(1).collect();
-    let run_child = |trace: Option<&str>| {
+    // explicit horizon (guidance: every harness has one): a subject that loops for ever must become a verdict,
+    // not a hung check. Generous: the quick tiers take seconds, the thorough ones minutes on 16 cores.
+    let thorough = args.iter().any(|a| a == "thorough") || (std::env::var("VERIF_TIER").ok().as_deref() == Some("thorough") && !args.iter().any(|a| a == "quick"));
+    let horizon = std::env::var("MC_HORIZON_SECS").ok().and_then(|v| v.parse::<u64>().ok()).unwrap_or(if thorough { 4 * 3600 } else { 1200 });
+    // (exit status or None = horizon exceeded and killed, stderr)
+    let run_child = |trace: Option<&str>, horizon: u64| -> Option<(Option<std::process::ExitStatus>, String)> {
+        use std::io::Read;
         let mut c = Command::new(&exe);
         c.args(&args).env("MC_CHILD", "1").stdin(Stdio::null());
         if let Some(t) = trace {
             c.env("MC_TRACE", t).env("VERIF_THREADS", "1").stdout(Stdio::null());
         }
         c.stderr(Stdio::piped());
-        let out = c.spawn().and_then(|ch| ch.wait_with_output());
-        out.ok()
+        let mut ch = c.spawn().ok()?;
+        let mut pipe = ch.stderr.take()?;
+        let reader = std::thread::spawn(move || {
+            let mut buf = String::new();
+            let mut bytes = vec![];
+            let _ = pipe.read_to_end(&mut bytes);
+            buf.push_str(&String::from_utf8_lossy(&bytes));
+            buf
+        });
+        let t0 = std::time::Instant::now();
+        let status = loop {
+            match ch.try_wait() {
+                Ok(Some(st)) => break Some(st),
+                Ok(None) => {
+                    if t0.elapsed().as_secs() >= horizon {
+                        let _ = ch.kill();
+                        let _ = ch.wait();
+                        break None;
+                    }
+                    std::thread::sleep(std::time::Duration::from_millis(20));
+                }
+                Err(_) => break None,
+            }
+        };
+        Some((status, reader.join().unwrap_or_default()))
     };
-    let out = match run_child(None) {
+    let (status, stderr) = match run_child(None, horizon) {
         Some(o) => o,
         None => return, // cannot spawn: run in-process
     };
-    let stderr = String::from_utf8_lossy(&out.stderr).to_string();
     eprint!("{stderr}");
-    if let Some(code) = out.status.code() {
+    if let Some(code) = status.and_then(|s| s.code()) {
         std::process::exit(code);
     }
+    let timed_out = status.is_none();
     // killed by a signal (SIGABRT / SIGSEGV / SIGILL ...)
     let tail: Vec<&str> = stderr.lines().rev().take(6).collect::<Vec<_>>().into_iter().rev().collect();
     let trace_path = format!("{}/target/trace-{property}.txt", verif_root());
     let _ = std::fs::remove_file(&trace_path);
     let replaying = args.iter().any(|a| a == "--replay");
-    let traced = if replaying { None } else { run_child(Some(&trace_path)) };
+    let traced = if replaying { None } else { run_child(Some(&trace_path), if timed_out { horizon.min(600) } else { horizon }) };
     let last = std::fs::read_to_string(&trace_path).unwrap_or_default();
     let last = last.trim_end_matches(['\0', ' ', '\n']).to_string();
     let case: Value = serde_json::from_str(&last).unwrap_or_else(|_| json!({"trace": last}));
-    let reproduced = traced.map_or(false, |t| t.status.code().is_none());
+    let reproduced = traced.map_or(false, |t| t.0.and_then(|s| s.code()).is_none());
     let dir = format!("{}/replays/{property}", verif_root());
     let _ = std::fs::create_dir_all(&dir);
     let path = if replaying { args.iter().skip_while(|a| *a != "--replay").nth(1).cloned().unwrap_or_default() } else { format!("{dir}/abort-{}.json", short_hash(&last)) };
     if !replaying {
-        let body = json!({"property": property, "entry": "process abort (memory-safety tripwire)", "finding_class": Value::Null,
+        let got = if timed_out {
+            format!("the exploration did not finish within the horizon of {horizon} s (a library call does not terminate); last state entered in single-threaded trace mode is in `case`")
+        } else {
+            format!("the process was killed by a fatal signal ({status:?}); stderr tail: {}", tail.join(" | "))
+        };
+        let body = json!({"property": property, "entry": if timed_out { "non-termination (horizon exceeded)" } else { "process abort (memory-safety tripwire)" }, "finding_class": Value::Null,
             "case": case, "expected": "the library call returns or panics cleanly",
-            "got": format!("the process was killed by a fatal signal ({:?}); stderr tail: {}", out.status, tail.join(" | ")),
+            "got": got,
             "abort_reproduced_in_trace_mode": reproduced});
         let _ = std::fs::write(&path, serde_json::to_string_pretty(&body).unwrap());
     }
     println!("VIOLATION property={property} replay={path}");
-    println!("  entry=process abort (memory-safety tripwire) status={:?} last_state={} stderr={}", out.status, truncate(&last, 300), truncate(&tail.join(" | "), 300));
+    if timed_out {
+        println!("  entry=non-termination (horizon {horizon} s exceeded) last_state={}", truncate(&last, 300));
+    } else {
+        println!("  entry=process abort (memory-safety tripwire) status={status:?} last_state={} stderr={}", truncate(&last, 300), truncate(&tail.join(" | "), 300));
+    }
     std::process::exit(1);
 }
 
